@@ -25,10 +25,10 @@ RULE = ("valid streams of m<=3 chunks of 1-2 pixels; (a) one invalid record of e
         "destination is not recognised / listed / openable as a cooler unless it passes V and reads as the COMPLETE input; every other "
         "object of the file is bit-identical to before; the file still opens. Non-trivial: every case (each is a distinct fault point or "
         "invalid-record position). Distinct by construction.")
-BOUNDS = {"quick": "3 streams; all 4 destinations; every fault point of 5 producers", "thorough": "6 streams; both storage modes for faults"}
+BOUNDS = {"quick": "3 streams; all 4 destinations; every fault point of 5 producers; single-cell file of 3 cells: every h5py call of create_scool (about 190), every invalid-record kind in every chunk of every cell, iterator failure before every chunk of every cell (each recognised cell must be complete; a cell finished earlier stays recognised)", "thorough": "6 streams; both storage modes for faults"}
 ASSUMPTIONS = ["faults are Python exceptions raised at the h5py API boundary; a killed process / torn HDF5 metadata flush is a property of libhdf5 and not explored",
                "what is left INSIDE the failed destination group is not judged"]
-EXPECT_CLASSES = {"*": ["invalid:bin-too-large", "invalid:negative-bin", "invalid:lower-triangle", "invalid:duplicate", "invalid:duplicate-other-value", "iterator-failure",
+EXPECT_CLASSES = {"*": ["scool:io-fault", "scool:invalid", "scool:iterfail", "invalid:bin-too-large", "invalid:negative-bin", "invalid:lower-triangle", "invalid:duplicate", "invalid:duplicate-other-value", "iterator-failure",
                         "io-fault", "dest:new-file", "dest:new-group", "dest:empty-group", "dest:root", "fault-after-format-attr"]}
 
 BINS = alpha.table_bins(((2, 2), (2, 2)), "chr")
@@ -179,6 +179,10 @@ def units(tier):
         yield {"leg": "load", "dest": dest}
     for dest in ("new-file", "new-group"):
         yield {"leg": "mapfail", "dest": dest}
+    # single-cell files: one append-create per cell; a stop inside cell k must leave cell k unrecognised (or complete) and every
+    # cell finished before it complete
+    for kind in ("iofault", "invalid", "iterfail"):
+        yield {"leg": "scool", "kind": kind}
 
 
 def _create(uri, chunks, producer, mode, symm=True, **kw):
@@ -355,6 +359,131 @@ def _iofault(R, unit, only):
     scratch.rm(wd)
 
 
+SCELLS = {"a": [[(0, 0, 1), (0, 2, 5)], [(1, 1, 2)]], "b": [[(0, 3, 1)], [(1, 2, 2), (3, 3, 3)]], "c10": [[(2, 3, 4)]]}
+
+
+def _scool(R, unit, only):
+    import cooler
+    from cooler import fileops
+    kind = unit["kind"]
+    wd = scratch.sub(f"c13s_{os.getpid()}")
+    f = os.path.join(wd, "w.scool")
+    names = sorted(SCELLS)
+    want = {nm: {(r[0], r[1]): r[2] for c in SCELLS[nm] for r in c} for nm in names}
+    R.add("states")
+    R.add("traces")
+
+    def run(cells, fail_at=None):
+        if os.path.exists(f):
+            os.remove(f)
+        raised = False
+        H5Hook.start(fail_at=fail_at)
+        try:
+            cooler.create_scool(f, build.bins_df(BINS), cells, ordered=True)
+        except Exception:
+            raised = True
+        finally:
+            n, log = H5Hook.stop()
+        return raised, n, log
+
+    def judge(inner, raised, must_raise, bad_cell=None):
+        """-> set of recognised cells"""
+        if must_raise and not raised:
+            R.mismatch("invalid-input-not-rejected", inner, "create_scool returned normally")
+        recog = set()
+        if not os.path.exists(f):
+            return recog
+        try:
+            listing = fileops.list_coolers(f)
+        except Exception as e:
+            R.mismatch("list_coolers-raises", inner, f"{type(e).__name__}: {e!s:.100}")
+            listing = []
+        for nm in names:
+            uri = f + "::/cells/" + nm
+            try:
+                rec = fileops.is_cooler(uri)
+            except Exception as e:
+                R.mismatch("is_cooler-raises", inner, f"{type(e).__name__}: {e!s:.100}")
+                rec = False
+            if not rec and ("/cells/" + nm) not in listing:
+                continue
+            recog.add(nm)
+            R.cls("recognised-after-disturbance")
+            v = [c for c in h5ref.validate(f, "/cells/" + nm) if c not in ("V:attr-missing:format-version", "V:attr-missing:format-url")]
+            ok = not v
+            if ok:
+                try:
+                    df = cooler.Cooler(uri).pixels()[:]
+                    ok = {(a, b): c for a, b, c in zip(df["bin1_id"].tolist(), df["bin2_id"].tolist(), df["count"].tolist())} == want[nm]
+                except Exception:
+                    ok = False
+            if not ok or nm == bad_cell:
+                R.mismatch("incomplete-collection-recognised-as-cooler", {**inner, "cell": nm}, f"V={v}")
+        return recog
+
+    def frames(nm):
+        return px([r for c in SCELLS[nm] for r in c])
+
+    if kind == "iofault":
+        raised, N, log = run({nm: frames(nm) for nm in names})
+        if raised or judge({"k": 0}, raised, False) != set(names):
+            R.mismatch("fault-free-run-differs-from-input", {"k": 0}, "")
+        prev = set()
+        for k in range(1, N + 1):
+            inner = {"k": k, "call": log[k - 1], "N": N}
+            if only is not None and only.get("k") != k:
+                continue
+            R.order = (R.order[0], k)
+            R.ev(1, 1)
+            R.add("transitions")
+            R.add("fault_points")
+            R.cls("scool:io-fault")
+            raised, _, _ = run({nm: frames(nm) for nm in names}, fail_at=k)
+            recog = judge(inner, raised, False)
+            if only is None and not prev <= recog:
+                R.mismatch("finished-cell-lost-by-a-later-fault", inner, f"recognised with the fault one call earlier: {sorted(prev)}, now: {sorted(recog)}")
+            prev = recog
+        R.sample({"leg": "scool", "kind": kind, "cells": names, "N_calls": N})
+    else:
+        kk = 0
+        for bi, bad in enumerate(names):
+            for ci in range(len(SCELLS[bad]) + 1):
+                for what in ((("bin-too-large", (0, NB, 1)), ("negative-bin", (-1, 2, 1)), ("lower-triangle", (3, 1, 1)), ("duplicate", None)) if kind == "invalid" else (("iterator-raises", None),)):
+                    kk += 1
+                    inner = {"cell": bad, "chunk": ci, "what": what[0]}
+                    if only is not None and only != inner:
+                        continue
+                    if kind == "invalid" and ci == len(SCELLS[bad]):
+                        continue
+                    R.order = (R.order[0], kk)
+                    R.ev(1, 1)
+                    R.add("transitions")
+                    R.cls("scool:" + kind)
+
+                    def chunks(nm):
+                        if nm != bad:
+                            return iter([px(c) for c in SCELLS[nm]])
+                        if kind == "iterfail":
+                            def gen():
+                                for q, c in enumerate(SCELLS[nm]):
+                                    if q == ci:
+                                        raise Boom("iterator failure")
+                                    yield px(c)
+                                if ci == len(SCELLS[nm]):
+                                    raise Boom("iterator failure")
+                            return gen()
+                        cs = [list(c) for c in SCELLS[nm]]
+                        cs[ci] = cs[ci] + [what[1] if what[1] is not None else cs[ci][0]]
+                        return iter([px(c) for c in cs])
+                    raised, _, _ = run({nm: chunks(nm) for nm in names})
+                    recog = judge(inner, raised, True, bad_cell=bad)
+                    # cells that sort before the disturbed one were finished before it was started
+                    lost = [nm for nm in names[:bi] if nm not in recog]
+                    if lost:
+                        R.mismatch("finished-cell-lost-by-a-later-failure", inner, f"{lost}")
+    scratch.rm(wd)
+
+
 def _load(R, dest, only):
     """`cooler load -f coo` with one bad line at every line number"""
     wd = scratch.sub(f"c13_{os.getpid()}")
@@ -492,6 +621,8 @@ def run(unit, R, tier, only=None):
         _load(R, unit["dest"], only)
     elif leg == "mapfail":
         _mapfail(R, unit["dest"], only)
+    elif leg == "scool":
+        _scool(R, unit, only)
     elif leg == "bigdup":
         _bigdup(R, only, tier)
     else:
